@@ -281,7 +281,7 @@ class C04(Spec):
             "virtual instants, loaders with scripted durations/results; all ten key kinds; P,J,En,Ee varied), or one "
             "GetShardingIndex / convertPowerOfTwo call, or one stress line (real goroutines racing on one key). Compared "
             "(monitor mode): every call/return/loader event with its virtual time, identity of returned futures, returned pairs. "
-            "non-trivial = at least two Loads of one key, or a pure line")
+            "non-trivial = at least two Loads of one key, or a pure line Round-2 classes: loaders running 20..100 x En (5..25 sweep ticks) with repeated Loads/Get2 of the key meanwhile; 130..1000 keys of one shard around a sweep tick.")
     trusted_base = CACHE_TRUSTED
     assumptions = ["loaders are functions of the scenario script (duration, result)", "Go int is 64 bit",
                    "convertPowerOfTwo: argument <= 2^62 (the Go loop diverges above)"]
